@@ -148,9 +148,14 @@ def crash_summary(run):
 
 # ----------------------------------------------------------------------------- TLC
 def tlc(module, cfg, wd, env=None, workers=16, extra=(), timeout=1800, simulate=None, depth=None, coverage=True,
-        xmx="8g", deque=False):
-    """Run TLC on spec/<module>.tla with spec/<cfg>. Returns dict(ok, states, distinct, out, violated, coverage)."""
+        xmx="8g", deque=False, tier=None):
+    """Run TLC on spec/<module>.tla with spec/<cfg>. Returns dict(ok, states, distinct, out, violated, coverage).
+    tier="thorough" selects spec/<cfg stem>_thorough.cfg (a larger scope of the same model) when it exists."""
     os.makedirs(wd, exist_ok=True)
+    if tier == "thorough" and not os.path.isabs(cfg):
+        big = cfg.replace(".cfg", "_thorough.cfg")
+        if os.path.exists(os.path.join(SPEC, big)):
+            cfg, xmx, timeout = big, "24g", max(timeout, 3000)
     meta = tempfile.mkdtemp(prefix="meta_", dir=wd)
     cmd = ["java", "-Xmx" + xmx, "-Xss512m", "-XX:+UseParallelGC"]     # deep (non-tail) recursion of the functional modules
     if deque:
